@@ -10,6 +10,17 @@ PARSABLE = ["beacon", "probe_resp", "assoc_resp", "reassoc_resp", "probe_req", "
 BSS_KINDS = ["beacon", "probe_resp", "assoc_resp", "reassoc_resp"]
 
 
+def tag_body(rnd, l):
+    """body bytes of an element handed to the tag API: arbitrary octets, with a share of bodies that hold zero octets
+    in front of non-zero ones (binary element data is not a C string)"""
+    r = rnd.random()
+    if r < 0.5:
+        return bytes(rnd.randrange(256) for _ in range(l))
+    if r < 0.75:
+        return bytes(rnd.choice([0, 0, rnd.randrange(1, 256)]) for _ in range(l))
+    return bytes(rnd.randrange(1, 256) for _ in range(l))
+
+
 def elem(num, body):
     body = bytes(body)
     return bytes([num & 0xff, len(body) & 0xff]) + body
